@@ -12,6 +12,7 @@ TECHNIQUE = 'runtime monitoring: bit-string model oracle + online bit-tape invar
 RULE = ('exhaustive: widths 1..64 x values {0,1,2^(n-1),2^n-2,2^n-1} x offsets 0..7 x {uint, sign-magnitude '
         'int, set_uint}; random: sequences of up to 200 fields of mixed types; non-trivial when the field is '
         'not byte aligned or carries an edge value; distinct by (kind,width,value class,offset) / sequence hash; bytes fields of width 0 (and 1-7 bits) and without width; serialisation before and after set_uint')
+RULE += '; added with rounds 10-12: writers and readers used with the tape monitor OFF (1-4 writers alive at the same time, every kind of field incl. set_uint, dropped half-way, looked at when complete); flags given as 1/0'
 ASSUMPTIONS = ['sign-magnitude integers of width 1 are outside the stated space (recorded, not judged)',
                'any exception counts as "refused" for values that do not fit',
                'bitstring itself is trusted only through the model comparison']
